@@ -245,7 +245,9 @@ pub fn compute_config_hash(config: &Config) -> String {
     // Only hash custom language definitions - these define comment syntax
     // which directly affects how LineStats are computed.
     // Predefined languages in LanguageRegistry are constant across versions.
-    let json = serde_json::to_string(&config.languages).unwrap_or_default();
+    // Hash the definitions in name order (HashMap iteration order differs from run to run)
+    let languages: std::collections::BTreeMap<_, _> = config.languages.iter().collect();
+    let json = serde_json::to_string(&languages).unwrap_or_default();
     let mut hasher = Sha256::new();
     hasher.update(json.as_bytes());
     format!("{:x}", hasher.finalize())
